@@ -4,6 +4,7 @@ pub mod util;
 mod window;
 pub mod conn;
 mod rot;
+mod nonce;
 mod codec;
 mod beacon;
 mod keys;
@@ -22,6 +23,8 @@ fn dispatch(args: &[String]) -> i32 {
         ("window", "random") => window::run_random(n(3), n(4), a(5)),
         ("rot", "sched") => rot::run_sched(a(3), a(4), a(5) == "each"),
         ("rot", "random") => rot::run_random(n(3), n(4) as i64, a(5)),
+        ("nonce", "families") => nonce::families(a(3)),
+        ("nonce", "life") => nonce::life(n(3), n(4), a(5)),
         ("codec", _) => codec::run(&args[2..]),
         ("beacon", _) => beacon::run(&args[2..]),
         ("keys", _) => keys::run(&args[2..]),
